@@ -340,6 +340,7 @@ def run_check(modname, tier, verif_seed, nworkers, n_override=None, selftest=Tru
         # ---------------- classify
         violations = []        # (result, violation) of this property
         other = {}
+        other_examples = {}
         for r in results:
             status_counts[r["status"]] = status_counts.get(r["status"], 0) + 1
             if r["status"] == "harness_error":
@@ -350,6 +351,9 @@ def run_check(modname, tier, verif_seed, nworkers, n_override=None, selftest=Tru
                 else:
                     key = f"{v['property']}.{v['clause']}"
                     other[key] = other.get(key, 0) + 1
+                    other_examples.setdefault(key, [])
+                    if len(other_examples[key]) < 3:
+                        other_examples[key].append({"index": r["index"], "msg": v["msg"][:300]})
 
         reported = []
         known_hit = {}
@@ -426,6 +430,7 @@ def run_check(modname, tier, verif_seed, nworkers, n_override=None, selftest=Tru
             "probes_stuck_at_zero": stuck,
             "status_counts": status_counts,
             "other_property_violations_seen": other,
+            "other_property_violation_examples": other_examples,
             "known_findings_hit": {k: v[1] for k, v in known_hit.items()},
             "determinism_selftest": {k: v for k, v in det.items()} if selftest and results else {},
             "real_vs_stub": getattr(mod, "REAL_VS_STUB", {}),
@@ -462,6 +467,9 @@ def run_check(modname, tier, verif_seed, nworkers, n_override=None, selftest=Tru
           f"faults={faults} wall={wall:.1f}s rc={rc}")
     if other:
         print(f"[{prop}] (not counted here) violations of other properties seen: {other}")
+        for key, exs in other_examples.items():
+            for ex in exs[:2]:
+                print(f"[{prop}]    e.g. {key} in run {ex['index']}: {ex['msg'][:200]}")
     return rc
 
 
